@@ -116,6 +116,11 @@ EvalE(x, h, row, grp, ctx) ==
                          IN IF x.neg THEN Not3(v) ELSE v)
     [] x.e = "exists" -> (LET v == B(AnyRel(EvalQ(x.q, ctx)).rows # <<>>) IN IF x.neg THEN 1 - v ELSE v)
     [] x.e = "scalar" -> (LET r == AnyRel(EvalQ(x.q, ctx)) IN IF r.rows = <<>> THEN NULL ELSE r.rows[1][1])
+    [] x.e = "case" -> (LET hit == {i \in 1..Len(x.rules) :
+                                     Truth(IF x.arg.e = "none" THEN EvalE(x.rules[i][1], h, row, grp, ctx)
+                                           ELSE BinVal("=", EvalE(x.arg, h, row, grp, ctx), EvalE(x.rules[i][1], h, row, grp, ctx))) = 1}
+                        IN IF hit = {} THEN (IF x.default.e = "none" THEN NULL ELSE EvalE(x.default, h, row, grp, ctx))
+                           ELSE EvalE(x.rules[CHOOSE i \in hit : \A j \in hit : i <= j][2], h, row, grp, ctx))
     [] x.e = "cast" -> EvalE(x.a, h, row, grp, ctx)          \* CAST(.. AS int) on integers
     [] x.e = "var" -> ctx.vars[x.c]                          \* '$var[col]' of a map-reduce step: the partition's value
     [] x.e = "agg" -> Agg(x, h, IF grp.on THEN grp.rows ELSE <<row>>, ctx)
@@ -296,6 +301,27 @@ EvalQ(q, ctx) ==
                                                        IF n = q.ctes[i].name THEN EvalQ(q.ctes[i].q, c) ELSE c.ctes[n]]])
            c2 == WithCtes(1, ctx)
        IN UNION {EvalSelect(q, src, c2) : src \in EvalFrom(q.from, c2)}
+
+----------------------------------------------------------------------------
+(* DML as transitions on one table: stmt = [d |-> "insert", table, cols, rows << <<exprs>> >>]                *)
+(*   | [d |-> "insert-select", table, cols, q] | [d |-> "update", table, set << <<col, expr>> >>, where]       *)
+(*   | [d |-> "delete", table, where];   returns the new rows of the table (tb = [cols, rows])                  *)
+ApplyDml(st, tb, ctx) ==
+  LET h == [i \in 1..Len(tb.cols) |-> [t |-> st.table, c |-> tb.cols[i]]]
+      pos(c) == CHOOSE i \in 1..Len(tb.cols) : tb.cols[i] = c
+      mk(vals) == [i \in 1..Len(tb.cols) |-> IF \E k \in 1..Len(st.cols) : st.cols[k] = tb.cols[i]
+                                              THEN vals[CHOOSE k \in 1..Len(st.cols) : st.cols[k] = tb.cols[i]] ELSE NULL]
+  IN CASE st.d = "insert" -> tb.rows \o [r \in 1..Len(st.rows) |-> mk([k \in 1..Len(st.rows[r]) |-> EvalE(st.rows[r][k], <<>>, <<>>, NoGrp, ctx)])]
+       [] st.d = "insert-select" -> tb.rows \o (LET rel == AnyRel(EvalQ(st.q, ctx)) IN [r \in 1..Len(rel.rows) |-> mk(rel.rows[r])])
+       [] st.d = "update" -> [r \in 1..Len(tb.rows) |->
+                                IF st.where.e = "none" \/ Truth(EvalE(st.where, h, tb.rows[r], NoGrp, ctx)) = 1
+                                THEN [i \in 1..Len(tb.cols) |->
+                                        IF \E k \in 1..Len(st.set) : st.set[k][1] = tb.cols[i]
+                                        THEN EvalE(st.set[CHOOSE k \in 1..Len(st.set) : st.set[k][1] = tb.cols[i]][2], h, tb.rows[r], NoGrp, ctx)
+                                        ELSE tb.rows[r][i]]
+                                ELSE tb.rows[r]]
+       [] st.d = "delete" -> SelectSeq(tb.rows, LAMBDA r : ~(st.where.e = "none" \/ Truth(EvalE(st.where, h, r, NoGrp, ctx)) = 1))
+       [] OTHER -> tb.rows
 
 \* comparing an observed / planned relation with an admissible one
 \* `a` carries its rows in an order that `b` (an admissible ordered answer) allows: equal as bags inside every
